@@ -630,7 +630,7 @@ impl SparqlDatabase {
                     } else if obj.starts_with("http://") || obj.starts_with("https://") {
                         output.push_str(&format!("<{}>", obj));
                     } else {
-                        output.push_str(&format!("\"{}\"", obj));
+                        output.push_str(&format!("\"{}\"", escape_ntriples_literal(obj)));
                     }
                 }
 
